@@ -9,6 +9,7 @@ Ordering information (instant ranks) is given here, by construction, never compu
 import json, os
 
 instants = [  # rank = index+1 ; strictly increasing
+    "0001-01-01T00:00:00Z",  # the zero value of time.Time (IsZero): a legal anchor; inserted FIRST, see SHIFT below
     "1492-10-12T08:00:00Z",  # before 1677-09-21: time.UnixNano() is not defined (wraps) for this instant
     "1970-01-01T00:00:00Z",  # the Unix epoch: UnixNano() = 0, the zero value of every encoding
     "2019-03-01T00:00:00Z",
@@ -18,14 +19,16 @@ instants = [  # rank = index+1 ; strictly increasing
     "2077-05-02T07:34:33.709551616Z",  # = the first instant + 2^64 ns: the two have the same (wrapped) UnixNano(); only looked up, never stored
     "2525-07-04T12:00:00.123456789Z",  # after 2262-04-11: UnixNano() not defined either
 ]
+# the ranks written in the tables below were assigned before the zero instant was put in front: they are moved up by one
+SHIFT = 1
 # concrete spellings of instants: (rank, text). The first spelling of each rank is the canonical one.
-spellings = [(i + 1, t) for i, t in enumerate(instants)] + [
+spellings = [(i + 1, t) for i, t in enumerate(instants)] + [(rk + SHIFT, t) for rk, t in [
     (4, "2020-01-01T02:00:00+02:00"),  # same instant as rank 4, other zone
     (5, "2020-06-01T05:30:00.5-07:00"),
     (5, "2020-06-01T18:00:00.5+05:30"),  # a non-whole-hour offset of the same instant
     (1, "1492-10-12T10:00:00+02:00"),  # the out-of-range instants in another zone as well
     (8, "2525-07-04T05:00:00.123456789-07:00"),
-]
+]]
 
 nodes = [  # abstract = concrete
     {"type": "/u", "id": "a"},
@@ -52,6 +55,10 @@ preds = [
     {"id": "q", "kind": "tmp", "n": 8},  # 14 anchored in 2525 (outside the UnixNano range)
     {"id": "p", "kind": "tmp", "n": 7},  # 15 never stored: 2^64 ns after predicate 13 (same wrapped UnixNano, a different instant)
 ]
+for _p in preds:
+    if _p["n"] > 0:
+        _p["n"] += SHIFT
+preds.append({"id": "p", "kind": "tmp", "n": 1})  # 16 never stored: anchored at the zero time.Time (an anchor like any other)
 # concrete predicate spellings: abs index + spelling index (0 for immutable)
 cpreds = []
 for i, p in enumerate(preds):
